@@ -9,22 +9,51 @@ A case is a whole history:
               _pendingTimedCalls / _newTimedCalls (ties the model's lazy-deletion counter to the real one)
 A call created by ["L", d, k] runs script k (its ops, one by one, each in its own try/except) when it
 fires; `ref` names call number `ref mod (calls created so far)`.
+
+Added by the white-box mutation audit (harness/mutants/C08/README.md):
+  script op ["E", kind]   the running call RAISES here (the rest of its script is not executed); kind indexes _EXC:
+            Exception subclasses and exceptions OUTSIDE the Exception hierarchy (KeyboardInterrupt, SystemExit,
+            GeneratorExit, asyncio.CancelledError, a plain BaseException subclass).  runUntilCurrent must log it and
+            go on with the remaining due calls of the same iteration.  Model: `Stmt.raise` / `executed` in Timers.lean.
+  script op ["g"]         getDelayedCalls() from INSIDE a running call (trace token g=...; oracle-judged; the model's
+            trace has no such event: `compare` removes the g=/e tokens before the string comparison)
+  case["debug"] = 0|1, top-level op ["B", 0|1]   the global mode DelayedCall.debug (creator stack recorded, the slow
+            failuresHandled() logging path in runUntilCurrent, repr() taken in cancel()); restored after the run.
+            The property, the oracle and the model do not depend on it.
 """
+import asyncio
 import itertools
+import re
 
 from twisted.internet import error
-from twisted.internet.base import ReactorBase
+from twisted.internet.base import DelayedCall, ReactorBase
+from twisted.logger import globalLogBeginner
+
+try:  # runUntilCurrent logs the failure of a raising timed call at level critical; keep it off stderr
+    globalLogBeginner.beginLoggingTo([lambda event: None], redirectStandardIO=False, discardBuffer=True)
+except Exception:  # pragma: no cover
+    pass
 
 HEADLINE = "TwistedProps.C08.history_trace_ok"
 RULE = ("histories of up to 200 top-level ops over up to ~130 calls: callLater/cancel/reset/delay at top level and "
         "from inside running calls (script table, self-rescheduling scripts), clock advances followed by runUntilCurrent, "
         "timeout() and getDelayedCalls() probes; modes: mixed, equal-time heavy (heap tie layout), cancellation bursts "
-        "(>50, compaction, also cancelled-while-staged), moves into the past (negative delay/reset), far-future times "
-        "(timeout clamp); plus exhaustive short histories over a 13-op alphabet; distinct = set of trace features")
+        "(>50, compaction, also cancelled-while-staged), reset/delay of a heap-resident call onto exactly the time of another, moves into the past (negative delay/reset), far-future times "
+        "(timeout clamp); about half of the random histories have scripts that RAISE (at the end, in the middle or at once; "
+        "ValueError/AlreadyCalled/ZeroDivisionError and, outside the Exception hierarchy, KeyboardInterrupt/SystemExit/"
+        "GeneratorExit/asyncio.CancelledError/a BaseException subclass), a third run under DelayedCall.debug=True and an "
+        "eighth toggle it mid-history, 8% of the nested ops are getDelayedCalls() from inside the running call; plus "
+        "exhaustive short histories over a 13-op alphabet, run with the plain script table and with a table whose scripts "
+        "probe getDelayedCalls() and raise (debug off and on); histories whose scripts multiply beyond 400 calls are "
+        "dropped by a reference timer (never by running the implementation); distinct = set of trace features")
 ASSUMES = [
     "the clock does not move while runUntilCurrent is executing (statement: advances are followed by an iteration)",
     "timeout()/runUntilCurrent() are called by the reactor loop only, never from inside a running call",
-    "user callbacks return normally (each scripted op catches its own AlreadyCalled/AlreadyCancelled)",
+    "user callbacks return normally OR raise (any class, also outside Exception; generated); each scripted cancel/reset/"
+    "delay catches its own AlreadyCalled/AlreadyCancelled; the exception's logging (twisted.logger) is not observed",
+    "getDelayedCalls() from inside a running call is judged by the oracle only (the model's trace has no such event; the "
+    "rest of such a history is still compared with the model); DelayedCall.debug is not modelled: the tie shows the "
+    "trace is the same with the mode on, off and toggled",
     "times are dyadic (multiples of 1/16 s, |t| < 2^40): Python float arithmetic on them is exact",
     "fewer than 2500 heap entries (CPython's heapify uses another visiting order above that; layout only)",
     "ordering clause: a call scheduled during the running iteration and then moved before that iteration's start "
@@ -51,7 +80,11 @@ MANIFEST = {
             "nonneg_history_order: for non-negative reset/delay arguments the ordering holds against all pending calls. "
             "getDelayedCalls = pending set; timeout bounded by the earliest pending call. cancellations_counter_exact: "
             "_cancellations = cancelled entries stored - cancelled calls still staged at the last compaction (can be negative: "
-            "counter_negative_witness). Model tied to base.py by differential traces incl. a white-box probe of _cancellations.",
+            "counter_negative_witness). raising_history_trace_ok / raising_runs_exactly_once: the same for histories whose "
+            "timed calls raise (a raising body = its statements before the first raise; runUntilCurrent's handlers swallow "
+            "every exception class and go on). Model tied to base.py by differential traces incl. a white-box probe of "
+            "_cancellations, raising calls, DelayedCall.debug on/off/toggled; getDelayedCalls() inside running calls is "
+            "checked by the reference-timer oracle.",
     "note": "trusts Lean kernel, the hand-written model (differentially tied incl. exact heap tie-order), CPython _heapq as transcribed",
     "technique": "Lean 4 proof (heap invariants for heapq sift loops, system invariant by induction over histories, simulation of a reference timer over the global trace) + differential tie + reference-timer oracle",
     "design_ref": "DESIGN.md §7.2 C08",
@@ -91,7 +124,29 @@ class _TooBig(Exception):
     pass
 
 
-def run_impl(case, limit=None):
+class _VerifBaseException(BaseException):
+    """an application exception outside the Exception hierarchy"""
+
+
+# what a scripted call can raise (["E", kind]); kinds 0, 6, 7 are Exceptions, the others are not
+_EXC = [ValueError, KeyboardInterrupt, SystemExit, GeneratorExit, _VerifBaseException, asyncio.CancelledError,
+        error.AlreadyCalled, ZeroDivisionError]
+_NON_EXCEPTION = {i for i, e in enumerate(_EXC) if not issubclass(e, Exception)}
+
+
+def run_impl(case, limit=1500):
+    """`limit`: hard bound on the number of calls created (generated histories create at most ~400 by the reference
+    timer, `_ref_calls`): a regression that runs a zero-delay self-rescheduling call inside the iteration that
+    scheduled it would otherwise never return; beyond the bound the run is reported as `!raised _TooBig`"""
+    saved = DelayedCall.debug
+    DelayedCall.debug = bool(case.get("debug", 0))
+    try:
+        return _run_impl(case, limit)
+    finally:
+        DelayedCall.debug = saved
+
+
+def _run_impl(case, limit):
     scripts = case["scripts"]
     r = _Reactor(case["base"] / TPS)
     calls = []          # DelayedCall objects by creation index
@@ -110,10 +165,20 @@ def run_impl(case, limit=None):
     def fire(idx, k):
         trace.append(f"r{idx}@{_ticks(r.seconds())}")
         for op in (scripts[k] if k < len(scripts) else []):
+            if op[0] == "E":
+                trace.append(f"e{op[1] % len(_EXC)}")
+                raise _EXC[op[1] % len(_EXC)]("raised by a timed call (verification harness)")
             do_op(op)
+
+    def delayed_calls():
+        got = sorted((dc._verif_idx, _ticks(dc.getTime())) for dc in r.getDelayedCalls())
+        return ".".join(f"{i}:{t}" for i, t in got)
 
     def do_op(op):
         kind = op[0]
+        if kind == "g":
+            trace.append("g=" + delayed_calls())
+            return
         if kind == "L":
             d, k = op[1], op[2]
             idx = len(calls)
@@ -156,8 +221,9 @@ def run_impl(case, limit=None):
             v = r.timeout()
             trace.append("T=None" if v is None else f"T={_ticks(v)}")
         elif kind == "G":
-            got = sorted((dc._verif_idx, _ticks(dc.getTime())) for dc in r.getDelayedCalls())
-            trace.append("G=" + ".".join(f"{i}:{t}" for i, t in got))
+            trace.append("G=" + delayed_calls())
+        elif kind == "B":
+            DelayedCall.debug = bool(top[1])
         elif kind == "K":
             trace.append(f"K={r._cancellations},{sum(1 for dc in r._pendingTimedCalls if dc.cancelled)},"
                          f"{sum(1 for dc in r._newTimedCalls if dc.cancelled)}")
@@ -172,13 +238,32 @@ def run_impl(case, limit=None):
 # the model line
 
 def _enc_op(op):
+    if op[0] == "E":
+        return f"E,{op[1] % len(_EXC)}"
     return ",".join(str(x) for x in op)
 
 
+def _enc_ops(ops, drop):
+    kept = [o for o in ops if o[0] not in drop]
+    return ";".join(_enc_op(o) for o in kept) if kept else "-"
+
+
 def model_line(case):
-    sc = "/".join((";".join(_enc_op(o) for o in s) if s else "-") for s in case["scripts"]) if case["scripts"] else "~"
-    ops = ";".join(_enc_op(o) for o in case["ops"]) if case["ops"] else "-"
-    return f"{case['base']} {sc} {ops}"
+    """the model has no getDelayedCalls-inside-a-call event and no debug mode: `g` and `B` ops are left out
+    (neither changes the timer state; `compare` removes the implementation's g=/e tokens); `E,<kind>` is passed on:
+    the driver keeps the statements before the first raise (`Twisted.Reactor.Timers.executed`)"""
+    sc = "/".join(_enc_ops(s, "g") for s in case["scripts"]) if case["scripts"] else "~"
+    return f"{case['base']} {sc} {_enc_ops(case['ops'], 'gB')}"
+
+
+_HARNESS_TOKEN = re.compile(r"g=.*|e[0-9]+")
+
+
+def compare(case, impl_out, model_out):
+    """string equality after removing the tokens the model does not produce: nested getDelayedCalls probes (g=...)
+    and the raise markers (e<kind>) written by the harness's own scripted call"""
+    toks = [t for t in impl_out.split(";") if not _HARNESS_TOKEN.fullmatch(t)] if impl_out else []
+    return ";".join(toks) == model_out
 
 
 # ------------------------------------------------------------------------------------------
@@ -247,11 +332,19 @@ def _problems(case, out):
             canc, ch, cs = (int(x) for x in tok[2:].split(","))
             if canc > ch + cs:
                 probs.append(("cancellations-counter", f"_cancellations = {canc} exceeds the {ch}+{cs} cancelled entries stored"))
-        elif tok[0] == "G":
+        elif tok[0] == "e":
+            # the running call raises here.  Nothing is demanded of this event itself; what the property demands is
+            # checked by the events that follow: the exception must not escape runUntilCurrent ("exception"), the
+            # remaining due calls still run in this iteration ("missed" at its end), the raising call counts as run
+            # (it is not run again, cancel() answers AlreadyCalled: "ran-not-pending", "status").
+            if not in_iter:
+                probs.append(("run-outside-iteration", f"{tok}: a call body ran outside runUntilCurrent"))
+        elif tok[0] in "Gg":
             got = [tuple(int(x) for x in p.split(":")) for p in tok[2:].split(".")] if tok[2:] else []
             exp = sorted((i, T[i]) for i in T if st[i] == "p")
             if got != exp:
-                probs.append(("getDelayedCalls", f"getDelayedCalls() = {got[:6]} but pending = {exp[:6]}"))
+                where = " (called from inside a running call)" if tok[0] == "g" and in_iter else ""
+                probs.append(("getDelayedCalls", f"getDelayedCalls(){where} = {got[:6]} but pending = {exp[:6]}"))
         else:
             head, res = tok.split("=")
             kind, args = head[0], [int(x) for x in head[1:].split(",")]
@@ -312,9 +405,15 @@ def tag(case, out):
         elif t.startswith("K="):
             canc, ch, cs = (int(x) for x in t[2:].split(","))
             f.add("K:" + ("neg" if canc < 0 else "exact" if canc == ch + cs else "under"))
+        elif t.startswith("g="):
+            f.add("g" if nested else "tg")
+        elif _HARNESS_TOKEN.fullmatch(t):
+            f.add("E:base" if int(t[1:]) in _NON_EXCEPTION else "E:exc")
         elif t.startswith("!"):
             f.add(t)
     f.add("canc>50" if ncanc > 50 else "canc>10" if ncanc > 10 else "canc")
+    if case.get("debug") or any(o[0] == "B" for o in case["ops"]):
+        f.add("dbg" if not any(o[0] == "B" for o in case["ops"]) else "dbg-toggled")
     runs = sum(1 for t in toks if t[:1] == "r")
     f.add("runs:" + ("0" if runs == 0 else "1-9" if runs < 10 else "10+"))
     return " ".join(sorted(f))
@@ -349,12 +448,31 @@ def corpus():
          "ops": [["L", 1, 0]] + [["L", 10 + (i * 7) % 13, 1] for i in range(60)] + [["I"]] + [["X", i] for i in range(1, 56)]
                 + [["K"], ["A", 1], ["I"], ["K"], ["I"], ["K"]] + [["L", 40, 1] for i in range(60)] + [["T"], ["K"]]
                 + [["X", 65 + i] for i in range(58)] + [["K"], ["I"], ["K"], ["G"], ["A", 100], ["I"], ["K"], ["G"]]},
+        # --- mutation audit: raising calls, Deferred-style global debug mode, getDelayedCalls from inside a call
+        # a call raises (ValueError / KeyboardInterrupt / SystemExit): the other due calls still run in this iteration,
+        # the raising call counts as run (cancel -> AlreadyCalled), ops before the raise took effect
+        {"base": 0, "scripts": [[["L", 8, 1], ["E", 0], ["X", 1]], [["g"]]],
+         "ops": [["L", 16, 0], ["L", 16, 1], ["L", 24, 1], ["A", 32], ["I"], ["X", 0], ["G"], ["T"], ["A", 8], ["I"], ["G"]]},
+        {"base": 0, "scripts": [[["R", 2, 0], ["E", 1]], [["g"], ["E", 2]], [["E", 5]]],
+         "ops": [["L", 16, 0], ["L", 16, 1], ["L", 80, 2], ["L", 20, 1], ["A", 32], ["I"], ["X", 0], ["R", 1, 0], ["G"], ["T"]]},
+        # the same under DelayedCall.debug (the failuresHandled() path), and with the mode switched on half-way
+        {"base": 0, "debug": 1, "scripts": [[["R", 2, 0], ["E", 1]], [["g"], ["E", 2]], [["E", 5]]],
+         "ops": [["L", 16, 0], ["L", 16, 1], ["L", 80, 2], ["L", 20, 1], ["A", 32], ["I"], ["X", 0], ["R", 1, 0], ["G"], ["T"]]},
+        {"base": 0, "debug": 1, "scripts": [[["L", 8, 1], ["E", 0], ["X", 1]], [["g"]]],
+         "ops": [["L", 16, 0], ["L", 16, 1], ["L", 24, 1], ["X", 2], ["A", 32], ["I"], ["X", 0], ["D", 1, 4], ["G"], ["T"], ["A", 8], ["I"], ["G"]]},
+        {"base": 0, "scripts": [[["E", 3]], [["X", 0], ["R", 0, 3], ["g"], ["E", 4]]],
+         "ops": [["L", 16, 0], ["B", 1], ["L", 16, 1], ["L", 16, 0], ["B", 0], ["L", 16, 1], ["A", 16], ["I"], ["X", 1], ["X", 2], ["G"]]},
+        # getDelayedCalls() just before an iteration and again from inside its running calls
+        {"base": 0, "scripts": [[["g"]], [["g"], ["L", 0, 0], ["g"]]],
+         "ops": [["L", 16, 0], ["L", 16, 1], ["L", 16, 0], ["L", 40, 0], ["G"], ["A", 16], ["I"], ["G"], ["A", 32], ["I"]]},
         # counter probes around staged cancellation without compaction (counter exact)
         {"base": 0, "scripts": [], "ops": [["K"], ["L", 5, 0], ["X", 0], ["K"], ["T"], ["K"], ["L", 5, 0], ["I"], ["X", 1], ["K"], ["A", 5], ["I"], ["K"]]},
     ]
 
 
 def _rand_op(rng, mode, nested):
+    if nested and rng.random() < 0.08:
+        return ["g"]
     r = rng.random()
     ref = rng.randrange(0, 64)
     small = [0, 0, 1, 2, 3, 8, 16, 16, 17, 40]
@@ -372,18 +490,21 @@ def _rand_op(rng, mode, nested):
         if mode == "past" and rng.random() < 0.4:
             s = -rng.choice([1, 8, 16, 50])
         return ["R", ref, s]
-    s = rng.choice([-40, -16, -8, -1, 1, 8, 16, 40])
+    s = rng.choice([-40, -16, -8, -1, 0, 1, 8, 16, 40])
     if mode in ("nonneg",) and nested:
         s = abs(s)
     return ["D", ref, s]
 
 
 def _history(rng, tier):
-    mode = rng.choice(["mixed", "mixed", "ties", "past", "nonneg", "far", "burst", "nestburst"])
+    mode = rng.choice(["mixed", "mixed", "ties", "past", "nonneg", "far", "burst", "nestburst", "tiereset"])
     if mode == "nestburst":
         return _nestburst(rng, tier)
+    if mode == "tiereset":
+        return _tiereset(rng, tier)
     nscripts = rng.randrange(0, 6)
     scripts = [[_rand_op(rng, mode, True) for _ in range(rng.choice([0, 1, 1, 2, 3, 5]))] for _ in range(nscripts)]
+    _add_raises(rng, scripts)
     ops = []
     n = rng.choice([5, 10, 20, 40, 80, 200]) if tier == "thorough" else rng.choice([5, 10, 20, 40, 80])
     if mode == "burst":
@@ -413,7 +534,55 @@ def _history(rng, tier):
         else:
             ops.append(_rand_op(rng, mode, False))
     ops += [["K"], ["G"], ["T"], ["A", 200], ["I"], ["G"], ["T"], ["K"]]
-    return {"base": rng.choice([0, 0, 7, 1600, -48]), "scripts": scripts, "ops": ops}
+    return _add_debug(rng, {"base": rng.choice([0, 0, 7, 1600, -48]), "scripts": scripts, "ops": ops})
+
+
+def _add_raises(rng, scripts):
+    """in about half of the histories some scripts raise: at their end (everything before took effect), at a random
+    place, or at once; exception classes inside and outside the Exception hierarchy"""
+    if not scripts or rng.random() < 0.5:
+        return
+    for s in scripts:
+        if rng.random() < 0.6:
+            pos = rng.choice([len(s), len(s), rng.randrange(0, len(s) + 1), 0])
+            s.insert(pos, ["E", rng.randrange(0, len(_EXC))])
+
+
+def _add_debug(rng, case):
+    """DelayedCall.debug: on for the whole history (1/3), toggled at random places (1/8), else off"""
+    r = rng.random()
+    if r < 0.33:
+        case["debug"] = 1
+    elif r < 0.46:
+        case["debug"] = rng.choice([0, 1])
+        for _ in range(rng.randrange(1, 4)):
+            case["ops"].insert(rng.randrange(0, len(case["ops"]) + 1), ["B", rng.choice([0, 1])])
+    return case
+
+
+def _tiereset(rng, tier):
+    """reset()/delay() of a heap-resident call onto EXACTLY the time of another heap-resident call, with enough
+    distinct times around for the move to need sifting (the class on which finding the call in the heap by anything
+    but identity — e.g. an `__eq__` on the time — picks the wrong entry); then iterations in steps of one second"""
+    k = rng.randrange(4, 24)
+    ds = [16 * rng.randrange(1, 9) for _ in range(k)]
+    ops = [["L", d, rng.randrange(0, 3)] for d in ds] + [rng.choice([["T"], ["I"], ["T"]])]
+    cur = list(ds)
+    for _ in range(rng.randrange(1, 7)):
+        c, b = rng.randrange(k), rng.randrange(k)
+        if cur[b] < cur[c]:
+            ops.append(["R", c, cur[b]] if rng.random() < 0.5 else ["D", c, cur[b] - cur[c]])
+            cur[c] = cur[b]
+        elif rng.random() < 0.3:
+            ops.append(["R", c, cur[c] + 16 * rng.randrange(0, 3)])     # lazily later: the key stays
+        if rng.random() < 0.3:
+            ops.append(rng.choice([["T"], ["G"]]))
+    ops += [["T"], ["G"]]
+    for _ in range(9):
+        ops += [["A", 16], ["I"], ["T"]]
+    ops += [["G"], ["K"]]
+    scripts = [[], [["g"]], [["R", rng.randrange(k), 16 * rng.randrange(0, 4)]]]
+    return _add_debug(rng, {"base": rng.choice([0, 0, 7, -48]), "scripts": scripts, "ops": ops})
 
 
 def _nestburst(rng, tier):
@@ -431,7 +600,12 @@ def _nestburst(rng, tier):
         nxt += 1
     if rng.random() < 0.3:
         body.append(["X", rng.randrange(1, k + 1)])
-    scripts = [body, [], [["X", rng.randrange(0, 64)]] if rng.random() < 0.5 else []]
+    if rng.random() < 0.3:
+        body.append(["g"])
+    if rng.random() < 0.3:
+        body.append(["E", rng.randrange(0, len(_EXC))])
+    scripts = [body, [["E", rng.randrange(0, len(_EXC))]] if rng.random() < 0.2 else [],
+               [["X", rng.randrange(0, 64)]] if rng.random() < 0.5 else []]
     ops = [["L", 1, 0]] + [["L", rng.choice([5, 16, 16, 30, 60]), 1] for _ in range(k)]
     if rng.random() < 0.8:
         ops.append(["I"])
@@ -444,7 +618,7 @@ def _nestburst(rng, tier):
         ops.append(rng.choice([["I"], ["T"]]))
     ops += [["X", nxt + v] for v in rng.sample(range(k2), rng.randrange(0, k2 + 1))] if k2 else []
     ops += [["K"], ["I"], ["K"], ["G"], ["A", rng.choice([4, 15, 100])], ["I"], ["K"], ["G"], ["T"], ["A", 200], ["I"], ["K"], ["G"]]
-    return {"base": rng.choice([0, 0, 7, -48]), "scripts": scripts, "ops": ops}
+    return _add_debug(rng, {"base": rng.choice([0, 0, 7, -48]), "scripts": scripts, "ops": ops})
 
 
 _ALPHA = [["L", 0, 0], ["L", 16, 1], ["L", 32, 2], ["X", 0], ["X", 1], ["R", 0, 0], ["R", 1, 48], ["D", 0, -16], ["D", 1, 16],
@@ -453,12 +627,67 @@ _ALPHA = [["L", 0, 0], ["L", 16, 1], ["L", 32, 2], ["X", 0], ["X", 1], ["R", 0, 
 _EXH_SCRIPTS = [[["L", 0, 1], ["D", 1, -16]], [["R", 0, 0], ["X", 2]], [["D", 0, 16], ["L", 16, 0]]]
 
 
-def _exhaustive(depth):
+# the same three scripts with a getDelayedCalls() probe and a raise each: KeyboardInterrupt in the middle (the ops before
+# it took effect, the one after it did not), ValueError and SystemExit at the end
+_EXH_SCRIPTS_RAISING = [[["L", 0, 1], ["g"], ["E", 1], ["D", 1, -16]], [["R", 0, 0], ["X", 2], ["g"], ["E", 0]],
+                        [["g"], ["D", 0, 16], ["L", 16, 0], ["E", 2]]]
+
+
+def _exhaustive(depth, scripts=_EXH_SCRIPTS, debug=0):
     for n in range(1, depth + 1):
         for combo in itertools.product(_ALPHA, repeat=n):
             if not any(o[0] == "L" for o in combo):
                 continue
-            yield {"base": 0, "scripts": _EXH_SCRIPTS, "ops": list(combo) + [["A", 16], ["I"], ["G"], ["T"], ["A", 32], ["I"], ["G"], ["K"]]}
+            c = {"base": 0, "scripts": scripts, "ops": list(combo) + [["A", 16], ["I"], ["G"], ["T"], ["A", 32], ["I"], ["G"], ["K"]]}
+            if debug:
+                c["debug"] = 1
+            yield c
+
+
+def _ref_calls(case, limit):
+    """number of calls a history creates according to a plain reference timer (id -> time/status; due calls of an
+    iteration run by (time, id); a script stops at its raise), stopping at `limit`.  Used only to drop histories whose
+    self-rescheduling scripts multiply: it must not depend on the implementation under test (a regression that
+    suppresses runs would otherwise let through histories on which the model's run explodes)."""
+    scripts = case["scripts"]
+    now = case["base"]
+    T, st, K = [], [], []
+
+    def do(op):
+        kind = op[0]
+        if kind == "L":
+            if op[1] >= 0:
+                T.append(now + op[1]); st.append("p"); K.append(op[2])
+        elif kind in "XRD" and T:
+            i = op[1] % len(T)
+            if st[i] == "p":
+                if kind == "X":
+                    st[i] = "x"
+                elif kind == "R":
+                    T[i] = now + op[2]
+                else:
+                    T[i] += op[2]
+
+    for top in case["ops"]:
+        if top[0] == "A":
+            now += top[1]
+        elif top[0] == "I":
+            n0 = len(T)
+            while len(T) <= limit:
+                due = [(T[i], i) for i in range(n0) if st[i] == "p" and T[i] <= now]
+                if not due:
+                    break
+                i = min(due)[1]
+                st[i] = "c"
+                for op in (scripts[K[i]] if K[i] < len(scripts) else []):
+                    if op[0] == "E":
+                        break
+                    do(op)
+        else:
+            do(top)
+        if len(T) > limit:
+            break
+    return len(T)
 
 
 def _bounded(rng, tier, n):
@@ -466,23 +695,23 @@ def _bounded(rng, tier, n):
     made = 0
     while made < n:
         c = _history(rng, tier)
-        try:
-            run_impl(c, limit=400)
-        except _TooBig:
+        if _ref_calls(c, 400) > 400:
             continue
-        except Exception:
-            pass
         made += 1
         yield c
 
 
 def generate(rng, tier):
     yield from _exhaustive(3 if tier == "quick" else 4)
+    yield from _exhaustive(3, _EXH_SCRIPTS_RAISING, 0)
+    yield from _exhaustive(3 if tier == "quick" else 4, _EXH_SCRIPTS_RAISING, 1)
+    yield from _exhaustive(2 if tier == "quick" else 3, _EXH_SCRIPTS, 1)
     yield from _bounded(rng, tier, 1500 if tier == "quick" else 12000)
 
 
 def search(rng, tier, disagreeing):
     yield from _exhaustive(4)
+    yield from _exhaustive(4, _EXH_SCRIPTS_RAISING, 0)
     yield from _bounded(rng, "thorough", 4000)
 
 
@@ -499,6 +728,8 @@ def shrink(case):
             yield {**case, "scripts": scripts[:si] + [s[:j] + s[j + 1:]] + scripts[si + 1:]}
     if case["base"] != 0:
         yield {**case, "base": 0}
+    if case.get("debug"):
+        yield {**case, "debug": 0}
     for i, o in enumerate(ops):
         for p in range(1, len(o)):
             if isinstance(o[p], int) and abs(o[p]) > 1:
